@@ -122,3 +122,36 @@ def _unpack_fixed(fmt, buffer, /):
 _c._PATCH_REGISTRATIONS[_struct.unpack] = _unpack_fixed
 import logging as _logging
 _logging.disable(_logging.CRITICAL)
+
+# --- int.to_bytes on symbolic ints: nested quotient chain (b0 = v % 256, v1 = v div 256, b1 = v1 % 256, ...) instead of
+# CrossHair's independent (v div 2^(8i)) % 256 terms; same values, but z3 relates the bytes to each other much faster.
+from crosshair.libimpl import builtinslib as _bl
+from crosshair.core import realize as _rl
+_orig_to_bytes = _bl.SymbolicInt.to_bytes
+
+
+def _to_bytes_nested(self, length=1, byteorder="big", *, signed=False):
+    if not isinstance(length, int) or not isinstance(byteorder, str) or not isinstance(signed, bool):
+        raise TypeError
+    length = _rl(length)
+    if signed:
+        half = (256 ** length) >> 1
+        if self < -half or self >= half:
+            raise OverflowError
+        if self < 0:
+            self = 256 ** length + self
+    else:
+        if self < 0 or self >= 256 ** length:
+            raise OverflowError
+    with NoTracing():
+        cur = self.var
+        arr = []
+        for _ in range(length):
+            arr.append(_bl.SymbolicInt(cur % 256))
+            cur = cur / 256
+        if _rl(byteorder) == "big":
+            arr.reverse()
+        return _bl.SymbolicBytes(arr)
+
+
+_bl.SymbolicInt.to_bytes = _to_bytes_nested
